@@ -162,7 +162,8 @@ impl TreeModel {
         if vs.is_empty() && removals.is_empty() {
             return Verdict::Rejected;
         }
-        if !self.batch_fits(start, vs.len()) {
+        // the start position only matters when there is something to write
+        if !vs.is_empty() && !self.batch_fits(start, vs.len()) {
             return Verdict::Rejected;
         }
         for &r in removals {
